@@ -6,9 +6,12 @@ Ops (all numbers literal, from the scenario):
   {"op": "seg",   "ls": 0..3, "n": cycles}                        hold a line state for n cycles
   {"op": "set",   "pin": name, "v": 0|1}                          change vbus_connected / low_speed_only / full_speed_only /
                                                                   disconnect / bus_busy now (zero duration)
-  {"op": "until", "event": "chirp_start"|"chirp_end"|"reset"|"suspend"|"hs", "ls": 0..3, "max": n, "after": k}
+  {"op": "until", "event": "chirp_start"|"chirp_end"|"reset"|"suspend"|"hs"|"settled", "ls": 0..3, "max": n, "after": k}
                                                                   hold a line state until the device shows the event
                                                                   (adaptive *inside* the op; nothing random), then k more cycles
+                                                                  ("settled" is a level, not an edge: the device shows FS/LS normal
+                                                                  mode or HS operation, i.e. it is not in chirp mode; true at once
+                                                                  if it already holds when the op starts)
 The actor also records every output change of the device (cheap change log instead of a per-cycle trace).
 """
 
@@ -74,7 +77,8 @@ class LineState:
         self.pin_changes = {p: [(0, self.pins[p])] for p in PINS}
         self.out_changes = []
         self.prev = None
-        self.flags = {"chirp_start": False, "chirp_end": False, "reset": False, "suspend": False, "hs": False}
+        self.flags = {"chirp_start": False, "chirp_end": False, "reset": False, "suspend": False, "hs": False,
+                      "settled": False}
         self.done = False
         self.tail = tail
         self.t_done = None
@@ -126,6 +130,7 @@ class LineState:
                 self._set_ls(t, op["ls"])
                 for f in self.flags:
                     self.flags[f] = False
+                self.flags["settled"] = self._settled(self.prev)
                 self.until = [op["event"], op.get("max", 130000), op.get("after", 0)]
             else:
                 raise ValueError(k)
@@ -137,11 +142,19 @@ class LineState:
             self.t_done = t
         return out
 
+    @staticmethod
+    def _settled(o):
+        """ level: normal operating mode with the termination that matches the speed (HS, or FS/LS) """
+        if o is None:
+            return False
+        return o[3] == 0 and ((o[2] == 0 and o[4] == 0) or (o[2] != 0 and o[4] == 1))
+
     def observe(self, t, s):
         o = (s["bus_reset"], s["suspended"], s["speed"], s["op_mode"], s["term"], s["tx_valid"])
         p = self.prev
         if o != p:
             self.out_changes.append((t, o))
+            self.flags["settled"] = self._settled(o)
             if p is not None:
                 f = self.flags
                 if o[5] and not p[5]:
